@@ -90,13 +90,18 @@ class FragCheck:
         viols, nontrivial = self.evaluate(case, ctr, rng)
         out["nontrivial"].extend(nontrivial)
         seen = set()
+        quota = {}
         for v in viols:
             key = (v["kind"], v.get("key"))
             if key in seen:
                 continue
+            # a few per (kind, governed key), so that many observations of one (possibly listed) mechanism
+            # cannot crowd out a different violation of the same program
+            qk = (v["kind"], str(v.get("ckey")))
+            if quota.get(qk, 0) >= 2 or len(seen) >= 16:
+                continue
+            quota[qk] = quota.get(qk, 0) + 1
             seen.add(key)
-            if len(seen) > 4:
-                break
             v["src"] = case.src
             v["prog"] = case.prog
             v["version"] = case.version
